@@ -19,6 +19,13 @@ Python side: the two engines' rows are compared directly (all columns, ecc
 included, NaN pattern exactly), shapes / column names of refine_com, caller's
 arrays unchanged.
 
+Tie (route T, pure-python engine and glue): tools/py2coq_refine.py re-translates the CURRENT source of
+_safe_center_of_mass / _refine / refine_com_arr / refine_com into coq/Gen/refine.v on every run; Proofs/COMRefine.v
+proves the generated functions equal to the reference model (ref_run / refine_python), to the kernel model behind the
+generated numba kernels (dispatch and argument preparation) and to the column / index layout of refine_com.  A
+translation error or a proof that no longer closes is reported through chk.proof_broken; the correspondence run below
+continues and supplies the concrete failing input where the edit changed behaviour.
+
 Tie (route T, numba kernels): tools/py2coq_com.py re-translates the CURRENT source
 of _numba_refine_2D / _2D_c / _2D_c_a / _3D into coq/Gen/com_kernels.v on every
 run; the cone of Properties/C07.v (Proofs/COMGen.v: each generated kernel equals
@@ -42,27 +49,33 @@ IMPORTS_GEN = "From TP Require Import Model.COM Model.COMCheck Model.COMGenCheck
 FUNC_GEN = "check_case_gen"
 TRANSLATOR = os.path.join(common.VERIF, 'tools', 'py2coq_com.py')
 GEN = os.path.join(common.COQ, 'Gen', 'com_kernels.v')
+# route T for the pure-python engine and the glue (_safe_center_of_mass, _refine, refine_com_arr, refine_com)
+TRANSLATOR_REFINE = os.path.join(common.VERIF, 'tools', 'py2coq_refine.py')
+GEN_REFINE = os.path.join(common.COQ, 'Gen', 'refine.v')
 STATE = dict(gen_ok=False)
 GEN_CODES = {30: 'divides by zero where the kernel model returns a row', 31: 'returns a row where the kernel model divides by zero',
              32: 'leaves a results array of the wrong shape'}
 
 
-def regenerate(chk):
-    """re-run the translator on the current source; returns (ok, text-or-log)"""
-    rc, out = common.sh([sys.executable, TRANSLATOR, '--repo', common.REPO, '--stdout'], timeout=60)
+def regenerate(chk, translator=None, gen=None):
+    """re-run a translator on the current source; returns (ok, text-or-log)"""
+    translator = translator or TRANSLATOR
+    gen = gen or GEN
+    name = 'Gen/' + os.path.basename(gen)
+    rc, out = common.sh([sys.executable, translator, '--repo', common.REPO, '--stdout'], timeout=60)
     if rc != 0:
         return False, out
     with common.Lock(os.path.join(common.COQ, '.build.lock')):
-        old = open(GEN).read() if os.path.exists(GEN) else None
+        old = open(gen).read() if os.path.exists(gen) else None
         if old != out:
-            os.makedirs(os.path.dirname(GEN), exist_ok=True)
-            tmp = GEN + '.tmp%d' % os.getpid()
+            os.makedirs(os.path.dirname(gen), exist_ok=True)
+            tmp = gen + '.tmp%d' % os.getpid()
             with open(tmp, 'w') as f:
                 f.write(out)
-            os.replace(tmp, GEN)
-            chk.tally('Gen/com_kernels.v rewritten (source differs from last run)')
+            os.replace(tmp, gen)
+            chk.tally('%s rewritten (source differs from last run)' % name)
         else:
-            chk.tally('Gen/com_kernels.v unchanged')
+            chk.tally('%s unchanged' % name)
     return True, out
 
 
@@ -90,17 +103,28 @@ def build(chk):
         # the rest of the cone does not depend on the generated file being current: still build what builds
         chk.build = dict(obligations=0, discharged=0, assumptions=[], files=[], theorems=[])
         return False
+    # the pure-python engine and the glue: a failing translation is reported like a broken proof; the cone is still
+    # built (the kernels' proofs do not depend on Gen/refine.v being current) and the correspondence run goes on,
+    # so that a concrete failing input is still searched for
+    ok_r, text_r = regenerate(chk, TRANSLATOR_REFINE, GEN_REFINE)
+    if not ok_r:
+        chk.proof_broken('translation tools/py2coq_refine.py (_safe_center_of_mass / _refine / refine_com_arr / refine_com left the translatable subset)', text_r)
     for attempt in range(3):
         b = chk.coq()
         cur = open(GEN).read()
-        if cur == text:
+        cur_r = open(GEN_REFINE).read() if os.path.exists(GEN_REFINE) else None
+        if cur == text and (not ok_r or cur_r == text_r):
             break
-        # another run (different TRACKPY_REPO) rewrote the generated file in between: redo
-        chk.violations = [v for v in chk.violations if not v[0].startswith('proof:')]
+        # another run (different TRACKPY_REPO) rewrote a generated file in between: redo
+        chk.violations = [v for v in chk.violations if not (v[0].startswith('proof:') and 'translation' not in v[0])]
         regenerate(chk)
+        if ok_r:
+            regenerate(chk, TRANSLATOR_REFINE, GEN_REFINE)
     chk.notes.append('Gen/com_kernels.v sha1 %s generated from %s' % (hashlib.sha1(text.encode()).hexdigest()[:12], common.REPO))
+    if ok_r:
+        chk.notes.append('Gen/refine.v sha1 %s generated from %s' % (hashlib.sha1(text_r.encode()).hexdigest()[:12], common.REPO))
     STATE['gen_ok'] = ensure_gencheck(chk) and open(GEN).read() == text
-    return bool(b['ok'])
+    return bool(b['ok']) and ok_r
 COLS = {1: 'position', 2: 'mass', 3: 'size', 4: 'signal', 5: 'raw_mass'}
 SENT = Fraction(10 ** 15 + 7)
 
@@ -579,6 +603,10 @@ def run(chk):
         "the four numba kernels are translated from the current source by tools/py2coq_com.py (trusted, fail-closed; subset and conventions in its docstring: exact rationals for floats, guarded division, "
         "total array reads returning 0 outside the array, UnboundLocalError not modelled, ecc sliced out) into Gen/com_kernels.v; Proofs/COMGen.v proves the generated kernels equal to the generic kernel model "
         "(see Properties/C07.v for which kernels are closed by proof), and every generated case also runs the generated kernels by vm_compute against the kernel model",
+        "_safe_center_of_mass, _refine, refine_com_arr and refine_com are translated from the current source by tools/py2coq_refine.py (trusted, fail-closed; subset and conventions in its docstring and in "
+        "Model/PyRefine.v: arrays = shape + total index function, Python's negative-index wrap-around / slice truncation at the border not modelled, float division total (x/0 = 0, excluded by the non-zero-mass premise), "
+        "in-place update of the private rounded coords rows not observable, UnboundLocalError not modelled, ecc sliced out, pandas / trackpy.utils / trackpy.masks calls are named primitives) into Gen/refine.v; "
+        "Proofs/COMRefine.v proves the generated functions equal to the models the C07 theorems are about",
         "float arithmetic: positions and sizes compared within 2^-40 relative; break/shift decisions closer than 2^-40 to shift_thresh are counted as degenerate and skipped",
         "images are integers or dyadic rationals (sums exact in float64); general float images are covered only up to rounding by the direct engine comparison",
         "ecc (cos/sin masks) is compared between the engines but not against a model",
